@@ -88,19 +88,17 @@ static uint64_t vt_us = 0;                 /* virtual microseconds since process
 /* threads that execute script commands; everybody else is a library thread */
 #define MAX_SCRIPT_THREADS 64
 static pthread_t script_threads[MAX_SCRIPT_THREADS];
-static int n_script_threads = 0;
+static _Atomic int n_script_threads = 0;
 
+static __thread int i_am_script = 0;
 void vt_register_script_thread(void) {
 	pthread_mutex_lock(&vt_mu);
 	if (n_script_threads < MAX_SCRIPT_THREADS) script_threads[n_script_threads++] = pthread_self();
+	i_am_script = 1;
 	pthread_mutex_unlock(&vt_mu);
 }
 
-static bool is_script_thread(void) {
-	pthread_t me = pthread_self();
-	for (int i = 0; i < n_script_threads; i++) if (pthread_equal(script_threads[i], me)) return true;
-	return false;
-}
+static bool is_script_thread(void) { return i_am_script != 0; }
 
 static void real_sleep_us(long us) {
 	struct timespec ts = { us / 1000000, (us % 1000000) * 1000 };
@@ -147,7 +145,7 @@ static int log_keep = 0;
 static char *logring[LOGRING];
 static int logring_n = 0;
 static pthread_mutex_t log_mu = PTHREAD_MUTEX_INITIALIZER;
-static unsigned long log_count = 0;
+static _Atomic unsigned long log_count = 0;
 
 void openlog(const char *ident, int option, int facility) { (void) ident; (void) option; (void) facility; }
 void closelog(void) {}
@@ -212,6 +210,14 @@ static uint8_t cb_read(int *ok) {
 	}
 	pthread_mutex_unlock(&up_mu);
 	return v;
+}
+
+/* bytes fed and not yet handed to the receiver */
+bool up_pending(void) {
+	pthread_mutex_lock(&up_mu);
+	bool p = up_r != up_w;
+	pthread_mutex_unlock(&up_mu);
+	return p;
 }
 
 /* wait (real time, bounded) until the receiver has consumed everything fed and polled again */
@@ -425,7 +431,7 @@ bool exec_line(char *line, int lineno, int thr) {
 	} else if (strcmp(op, "globals") == 0) {
 		HEAD(); fprintf(vout, ",\"running\":%d,\"discard_rx\":%d,\"seq_enabled\":%d,\"debug\":%d,\"logs\":%lu",
 		                bidib_running ? 1 : 0, bidib_discard_rx ? 1 : 0, bidib_seq_num_enabled ? 1 : 0,
-		                bidib_lowlevel_debug_mode ? 1 : 0, log_count);
+		                bidib_lowlevel_debug_mode ? 1 : 0, (unsigned long) log_count);
 		out_thr(); TAIL();
 	} else if (strcmp(op, "note") == 0) {
 		HEAD(); fputs(",\"text\":", vout); out_str(n > 1 ? tok[1] : ""); TAIL();
